@@ -848,13 +848,61 @@ impl Record {
         self.tags.push(name.to_owned());
     }
 }
+impl Record {
+    pub fn set_tag(&mut self, tag: &str) {
+        if self.tags.is_empty() {
+            self.tags.push(tag.to_owned());
+        } else {
+            self.tags[0] = tag.to_owned();
+        }
+    }
+    fn small(p: u8) -> Option<u8> {
+        if p < 3 {
+            Some(p)
+        } else {
+            None
+        }
+    }
+    fn parse(field: String) -> Result<Option<u8>, String> {
+        let s = field;
+        match s.as_str() {
+            "." => Ok(None),
+            _ => {
+                let p = u8::from_str(&s).map_err(|_| "bad")?;
+                match Self::small(p) {
+                    Some(p) => Ok(Some(p)),
+                    None => Err("big"),
+                }
+            }
+        }
+    }
+    fn pairs(&self, raw: String) -> Vec<String> {
+        let trim = |s: &str| s.trim_matches('\'').trim_matches('"').to_owned();
+        let mut out = MultiMap::new();
+        for caps in self.re.captures_iter(&raw) {
+            for value in caps["value"].split(',') {
+                out.insert(trim(&caps["key"]), trim(value));
+            }
+        }
+        out
+    }
+}
 impl<W: io::Write> Writer<W> {
+    pub fn make(writer: W, t: u8) -> Self {
+        Writer {
+            inner: csv::WriterBuilder::new().delimiter(b'\t').from_writer(writer),
+            sep: t as char,
+            term: String::from_utf8(vec![t]).unwrap(),
+            vd: t,
+        }
+    }
     pub fn write(&mut self, record: &Record) -> csv::Result<()> {
         let attributes = if !record.attributes.is_empty() {
             let vd = (self.vd as char).to_string();
-            record
-                .attributes
-                .iter_all()
+            let mut entries: Vec<(&String, &Vec<String>)> = record.attributes.iter_all().collect();
+            entries.sort_unstable_by(|x, y| x.0.cmp(y.0));
+            entries
+                .into_iter()
                 .map(|(a, values)| format!("{}{}{}", a, self.sep, values.iter().join(&vd)))
                 .join(&self.term)
         } else {
@@ -867,11 +915,14 @@ impl<W: io::Write> Writer<W> {
 
 SELFTEST_UNIT = dict(
     name="SelfGff", file="selftest.rs", props="self-test", variables=["ω", "ρ"],
-    types={CSV_W: "ω", "csv::Result<()>": "ρ", "Option<str>": "Option (List Nat)", "Option<u64>": "Option Nat"},
-    abstract=ABSTRACT,
+    types={CSV_W: "ω", "csv::Result<()>": "ρ", "Option<str>": "Option (List Nat)", "Option<u64>": "Option Nat",
+           "Option<u8>": "Option Nat", "Captures": "(List Nat × List Nat)", "PairMap": "List (List Nat × List Nat)"},
+    abstract=ABSTRACT + [("captures", "List Nat → List (List Nat × List Nat)")],
     decls={"Writer": dict(kind="struct", head="pub struct Writer<W: io::Write>", lean="Writer", skip=["inner"]),
            "Record": dict(kind="struct", head="pub struct Record", lean="Record")},
-    methods={"Record.tag": dict(lean="tag", monadic=True, ret="Option<str>")},
+    methods={"Record.tag": dict(lean="tag", monadic=True, ret="Option<str>"),
+             ".captures_iter": dict(lean="captures", recv=False, ret="[Captures]")},
+    calls={"Self::small": dict(lean="small", ret="Option<u8>")},
     functions=[
         dict(name="tag", lean="tag", header="pub fn tag(&self, i: usize) -> Option<&str>", self_ty="Record",
              params=[("i", "usize")], ret="Option<str>"),
@@ -879,7 +930,14 @@ SELFTEST_UNIT = dict(
         dict(name="set_name", lean="setName", header="pub fn set_name(&mut self, name: &str)", self_ty="Record",
              params=[("name", "str")], ret="Record", mut_self=True),
         dict(name="write", lean="write", header="pub fn write(&mut self, record: &Record) -> csv::Result<()>", self_ty="Writer",
-             inner=CSV_W, params=[("record", "Record")], ret="csv::Result<()>", abs=["serialize", "dec"]),
+             inner=CSV_W, params=[("record", "Record")], ret="csv::Result<()>", abs=["serialize", "dec", "permGroups"]),
+        dict(name="set_tag", lean="setTag", header="pub fn set_tag(&mut self, tag: &str)", self_ty="Record",
+             params=[("tag", "str")], ret="Record", mut_self=True, force_monadic=True),
+        dict(name="small", lean="small", header="fn small(p: u8) -> Option<u8>", params=[("p", "u8")], ret="Option<u8>"),
+        dict(name="parse", lean="parse", header="fn parse(field: String) -> Result<Option<u8>, String>", params=[("field", "String")],
+             ret="Option<u8>", result=True),
+        dict(name="make", lean="make", header="pub fn make(writer: W, t: u8) -> Self", params=[("t", "u8")], ret="Writer",
+             force_monadic=True, pinned_fields={"inner": "csv::WriterBuilder::new().delimiter(9).from_writer(writer)"}),
     ])
 
 # (edit of the self-test text, reason it must be refused with)
@@ -892,6 +950,10 @@ SELFTEST_REFUSED = [
     (("self.inner.serialize((&record.name,", "self.inner.write_record((&record.name,"), "write_record"),
     (("attributes))", "record.tags.is_empty(), attributes))"), "serialisation"),
     (("self.tags.push(name.to_owned());", "self.tags.clear();"), "expression statement"),
+    (("entries.sort_unstable_by(|x, y| x.0.cmp(y.0));", "entries.reverse();"), "expression statement"),
+    ((".delimiter(b'\\t').from_writer(writer)", ".delimiter(b',').from_writer(writer)"), "pins it"),
+    (('let p = u8::from_str(&s).map_err(|_| "bad")?;', 'let p = u8::from_str(&s).unwrap();'), "can panic"),
+    (("self.tags[0] = tag.to_owned();", "self.tags[0] += 1;"), "compound assignment"),
     (('"-".to_owned()', 'return Ok(())'), "return"),
 ]
 
@@ -904,10 +966,20 @@ example : tag r0 1 = .ok (some [43]) := by decide
 example : tag r0 0 = .panic := by decide
 example : plus r0 = .ok (some 1) := by decide
 example : (setName r0 [97]).tags = [[43], [120], [97]] := by decide
-example : write ser dec1 [] { sep := 61, term := [59], vd := 44 } r0
+example : write ser dec1 id [] { sep := 61, term := [59], vd := 44 } r0
     = [[[110], [55], [43], [120], [107, 61, 1, 44, 2, 59, 108, 61, 3]]] := by decide
-example : write ser dec1 [] { sep := 61, term := [59], vd := 44 } { r0 with attributes := [] }
+example : write ser dec1 List.reverse [] { sep := 61, term := [59], vd := 44 } r0
+    = [[[110], [55], [43], [120], [108, 61, 3, 59, 107, 61, 1, 44, 2]]] := by decide
+example : write ser dec1 id [] { sep := 61, term := [59], vd := 44 } { r0 with attributes := [] }
     = [[[110], [55], [43], [120], [45]]] := by decide
+example : setTag r0 [97] = .ok { r0 with tags := [[97], [120]] } := by decide
+example : (setTag { r0 with tags := [] } [97]) = .ok { r0 with tags := [[97]] } := by decide
+example : parse [46] = .ok none := rfl
+example : parse [50] = .ok (some 2) := rfl
+example : parse [55] = .error () := rfl
+example : parse [43, 49] = .ok (some 1) := rfl
+example : make 59 = .ok { sep := 59, term := [59], vd := 59 } := by decide
+example : make 200 = .panic := by decide
 example : Rs.charStr 233 = [195, 169] := by decide
 """
 
@@ -941,7 +1013,7 @@ def selftest(with_lean):
         if p.returncode != 0:
             print(p.stdout)
             raise SystemExit("rs2lean_gengff selftest: lean failed")
-        print("rs2lean_gengff selftest: generated Lean compiles, 7 evaluations agree")
+        print("rs2lean_gengff selftest: generated Lean compiles, 16 evaluations agree")
 
 
 def main():
